@@ -90,21 +90,62 @@ void setupRoutes(Rest::Router& router)
     Routes::Get(router, "/only-get/:tag", echo("GET"));
 }
 
+// which threads drive a handler copy: every worker has its own copy (Prototype::clone) and the connection state behind it is
+// to be touched by that worker only — connection, request and disconnection callbacks of one copy all come from one thread
+struct Affinity { std::mutex m; std::vector<std::thread::id> threads; };
+std::mutex g_affM; std::vector<std::shared_ptr<Affinity>> g_aff;
+
+class AffHandler : public Rest::Private::RouterHandler
+{
+public:
+    HTTP_PROTOTYPE(AffHandler)
+    explicit AffHandler(const Rest::Router& router) : Rest::Private::RouterHandler(router), aff(fresh()) { }
+    AffHandler(const AffHandler& o) : Rest::Private::RouterHandler(o), aff(fresh()) { }       // a clone is a new copy
+    void onConnection(const std::shared_ptr<Tcp::Peer>& peer) override { note(); Rest::Private::RouterHandler::onConnection(peer); }
+    void onRequest(const Http::Request& req, Http::ResponseWriter response) override { note(); Rest::Private::RouterHandler::onRequest(req, std::move(response)); }
+    void onDisconnection(const std::shared_ptr<Tcp::Peer>& peer) override { note(); Rest::Private::RouterHandler::onDisconnection(peer); }
+private:
+    static std::shared_ptr<Affinity> fresh() { auto a = std::make_shared<Affinity>(); std::lock_guard<std::mutex> g(g_affM); g_aff.push_back(a); return a; }
+    void note()
+    {
+        auto id = std::this_thread::get_id(); std::lock_guard<std::mutex> g(aff->m);
+        for (auto& t : aff->threads) if (t == id) return;
+        aff->threads.push_back(id);
+    }
+    std::shared_ptr<Affinity> aff;
+};
+// number of handler copies driven by more than one thread since the last call
+int sharedCopies()
+{
+    std::lock_guard<std::mutex> g(g_affM); int n = 0;
+    for (auto& a : g_aff) { std::lock_guard<std::mutex> g2(a->m); if (a->threads.size() > 1) ++n; }
+    g_aff.clear(); return n;
+}
+
 struct Server {
     std::unique_ptr<Http::Endpoint> ep; uint16_t port = 0; std::shared_ptr<Rest::Private::RouterHandler> handler;
     size_t tables() const { return handler->router->routes.size(); }
-    void start(int workers, bool customNotFound = false)
+    // deferred: a port is chosen and the endpoint prepared, but nothing listens until serve() (which binds and starts the threads)
+    void start(int workers, bool customNotFound = false, bool deferred = false)
     {
-        ep.reset(new Http::Endpoint(Address("127.0.0.1", Port(0))));
+        uint16_t fixed = 0;
+        if (deferred) {
+            int t = ::socket(AF_INET, SOCK_STREAM, 0); sockaddr_in a {}; a.sin_family = AF_INET; a.sin_addr.s_addr = htonl(INADDR_LOOPBACK);
+            socklen_t l = sizeof a; ::bind(t, reinterpret_cast<sockaddr*>(&a), sizeof a); ::getsockname(t, reinterpret_cast<sockaddr*>(&a), &l);
+            fixed = ntohs(a.sin_port); ::close(t);
+        }
+        ep.reset(new Http::Endpoint(Address("127.0.0.1", Port(fixed))));
         ep->init(Http::Endpoint::options().threads(workers).flags(Tcp::Options::ReuseAddr));
         Rest::Router router; setupRoutes(router);
         if (customNotFound)
             router.addNotFoundHandler([](const Rest::Request&, Http::ResponseWriter response) { response.send(Http::Code::Not_Found, "custom-nf"); return Rest::Route::Result::Ok; });
-        handler = router.handler();
+        handler = std::make_shared<AffHandler>(router);
         ep->setHandler(handler);
+        if (deferred) { port = fixed; return; }
         ep->serveThreaded();
         port = static_cast<uint16_t>(ep->getPort());
     }
+    void serve() { ep->serveThreaded(); }
 };
 
 std::string statusAndBody(const std::string& resp)
@@ -167,8 +208,12 @@ std::string opMt(const std::vector<std::string>& w)
 {
     if (w.size() != 6) return "bad-op";
     int workers = atoi(w[1].c_str()), clients = atoi(w[2].c_str()), reqs = atoi(w[3].c_str()); bool mid = w[4] == "mid"; unsigned seed = static_cast<unsigned>(atoi(w[5].c_str()));
+    // pre: the clients spin on connect() before the endpoint listens; serveThreaded() is called while they do, so the first
+    // connections are accepted while the worker threads are still coming up
+    const bool pre = w[4] == "pre";
     int tasksBefore = countTasks();
-    Server srv; srv.start(workers);
+    (void)sharedCopies();
+    Server srv; srv.start(workers, false, pre);
     std::atomic<int> ok { 0 }, bad { 0 }, missing { 0 }, sent { 0 };
     std::atomic<bool> stopClients { false };
     std::atomic<int> ready { 0 };
@@ -178,8 +223,15 @@ std::string opMt(const std::vector<std::string>& w)
         ts.emplace_back([&, c] {
             unsigned st = seed * 7919u + static_cast<unsigned>(c) * 104729u + 1;
             auto rnd = [&] { st = st * 1103515245u + 12345u; return (st >> 16) & 0x7fff; };
-            int fd = connectTo(srv.port); std::string buf;
-            ++ready; while (ready.load() < clients) std::this_thread::yield();
+            int fd = -1; std::string buf;
+            if (pre) {
+                ++ready;
+                auto t0 = std::chrono::steady_clock::now();
+                while ((fd = connectTo(srv.port)) < 0 && std::chrono::steady_clock::now() - t0 < std::chrono::seconds(10)) { }
+            } else {
+                fd = connectTo(srv.port);
+                ++ready; while (ready.load() < clients) std::this_thread::yield();
+            }
             for (int i = 0; i < reqs && !stopClients; ++i) {
                 const char* m = METHODS[rnd() % 9];
                 const char* kinds[] = { "echo", "echo", "p", "d", "only-get", "nowhere" };
@@ -207,6 +259,7 @@ std::string opMt(const std::vector<std::string>& w)
             }
             if (fd >= 0) ::close(fd);
         });
+    if (pre) { while (ready.load() < clients) std::this_thread::yield(); std::this_thread::sleep_for(std::chrono::milliseconds(2)); srv.serve(); }
     if (mid) { while (sent.load() < clients * reqs / 2) std::this_thread::sleep_for(std::chrono::milliseconds(1)); }
     else for (auto& t : ts) t.join();
     auto t0 = std::chrono::steady_clock::now();
@@ -226,8 +279,9 @@ std::string opMt(const std::vector<std::string>& w)
     for (int i = 0; i < 100; ++i) { tasksAfter = countTasks(); if (tasksAfter <= tasksBefore) break; std::this_thread::sleep_for(std::chrono::milliseconds(10)); }
     int total = clients * reqs;
     size_t tablesAfter = tablesSeen;
+    const int shared = sharedCopies();
     std::string out = "total=" + std::to_string(total) + " answered=" + std::string(bad == 0 ? "all-own" : "wrong") + " bad=" + std::to_string(bad.load())
-        + " shutdown=" + (shutdownMs < 5000 ? "ok" : "slow") + " acceptor=" + (stillServing ? "alive" : "stopped")  + " sdthreads=" + std::to_string(tasksAfterShutdown - tasksBefore) + " threads=" + std::to_string(tasksAfter - tasksBefore) + " tables=" + std::to_string(tablesAfter);
+        + " shutdown=" + (shutdownMs < 5000 ? "ok" : "slow") + " acceptor=" + (stillServing ? "alive" : "stopped")  + " sdthreads=" + std::to_string(tasksAfterShutdown - tasksBefore) + " threads=" + std::to_string(tasksAfter - tasksBefore) + " tables=" + std::to_string(tablesAfter) + " sharedcopies=" + std::to_string(shared);
     if (!mid && missing != 0) out += " missing=" + std::to_string(missing.load());
     if (!firstBad.empty()) out += " first=" + toHex(firstBad);
     return out;
